@@ -22,6 +22,13 @@ L11Q == {<<"tick">>} \cup {<<"hb", nd, 5>> : nd \in {10, 11, 12}} \cup {<<"hb", 
        \cup {<<"hbev", nd>> : nd \in {10, 11}} \cup {<<"hblast", 10>>, <<"sdord", 4118, 2>>}
 P11 == << <<"sdord", 4118, 1>>, <<"sdord", 4118, 2>>, <<"hb", 10, 5>>, <<"hb", 11, 5>>, <<"hb", 12, 5>>, <<"tick">>, <<"tick">>, <<"tick">>, <<"tick">>, <<"tick">>, <<"tick">>,
           <<"hbev", 10>>, <<"hbev", 11>>, <<"hbev", 12>>, <<"hblast", 10>>, <<"hblast", 11>>, <<"hblast", 12>>, <<"hb", 10, 127>>, <<"tick">>, <<"tick">>, <<"tick">> >>
+\* ---- C20 (node services part): heartbeat producer + two consumers + application timers, reset in every state
+L20 == {<<"tick">>, <<"nmt", 130, 5>>, <<"nmt", 129, 0>>, <<"nmt", 1, 5>>, <<"nmt", 2, 5>>, <<"hb", 10, 5>>, <<"hb", 11, 127>>}
+       \cup {<<"sdowr", 4119, 0, <<t, 0>>>> : t \in {0, 3}} \cup {HcW(2, 11, 2), HcW(1, 12, 3), HcW(2, 11, 0)} \cup {<<"apptmr", 1, 2, 2>>, <<"apptmr", 2, 3, 0>>, <<"emcyset">>}
+L20Q == {<<"tick">>, <<"nmt", 130, 5>>, <<"nmt", 1, 5>>, <<"hb", 10, 5>>, <<"sdowr", 4119, 0, <<3, 0>>>>, HcW(2, 11, 2), <<"apptmr", 1, 2, 2>>, <<"emcyset">>}
+P20 == << <<"pool">>, <<"nmt", 130, 5>>, <<"pool">>, <<"getmode">>, <<"hbev", 10>>, <<"hblast", 10>>, <<"tick">>, <<"tick">>, <<"tick">>, <<"pool">>, <<"hb", 10, 5>>, <<"hb", 11, 5>>, <<"hb", 12, 5>>, <<"pool">>,
+          <<"tick">>, <<"tick">>, <<"tick">>, <<"tick">>, <<"hbev", 10>>, <<"hbev", 11>>, <<"emcyset">>, <<"nmt", 129, 0>>, <<"pool">>, <<"tick">>, <<"tick">>, <<"tick">>, <<"emcyset">>, <<"pool">> >>
+HC20 == << <<10, 2>>, <<0, 0>> >>
 HC09 == << <<10, 2>> >>
 HC10 == << <<10, 3>> >>
 HC11 == << <<10, 2>>, <<0, 0>> >>
